@@ -489,6 +489,10 @@ def main(argv=None) -> int:
             res = dict(status="error", message=res["error"])
         if res["status"] == "violation":
             print(res["message"])
+            known = [e for e in load_known(prop) if any(region_match(r, res.get("site", {}), res.get("oracle", "")) for r in e.get("regions", []))]
+            if known:
+                print(f"KNOWN-FINDING: property={prop} {known[0]['id']} {known[0]['what']} (this replay lies inside its region)")
+                return 0
             print(f"VIOLATION property={prop} replay={a.replay}")
             return 1
         if res["status"] in ("error", "timeout"):
